@@ -256,6 +256,141 @@ def judge_act(r, act, out, history):
         r.violation(f"history:protocol:{probs[0].split(' ')[0]}", w, f"{what}: {probs[0]}; event types {types}")
 
 
+def run_pairs(r, iface0):
+    """Two requests in progress at once on one response object: each of the two event sequences must be legal on its own."""
+    iface = "wsgi" if iface0 == "wsgi" else "asgi"
+    m = mod_for(iface)
+    d = tempfile.mkdtemp(prefix="c05-", dir=os.environ.get("VERIF_SCRATCH", "/tmp"))
+    try:
+        p = os.path.join(d, "data.bin")
+        with open(p, "wb") as f:
+            f.write(bytes(range(10)))
+        ext = {"http.response.zerocopysend": {}} if iface0 == "zerocopy" else None
+        reqs = [SV.AReq(method=meth, headers=h) for h in ([], [("Range", "bytes=1-6")], [("Range", "bytes=0-1,5-8")], [("Range", "bytes=20-")]) for meth in ("GET", "HEAD")]
+        makers = {"file": lambda: m.FileResponse(p, chunk_size=3), "plain": lambda: m.PlainTextResponse("hello", 200, {"x-a": "1"}), "stream": lambda: build_stream(iface, "stream", 2, None)}
+        for rname, mk in makers.items():
+            rq = reqs if rname == "file" else reqs[:2]
+            for i in range(len(rq)):
+                for j in range(i, len(rq)):
+                    w = {"iface": iface0, "recipe": f"pair {rname}", "fault": None, "pair": [rq[i].describe(), rq[j].describe()]}
+
+                    def check(results, how):
+                        r.count("evaluations")
+                        r.count("traces")
+                        r.count("distinct_nontrivial")
+                        for k, res in enumerate(results):
+                            if rname == "stream" and k == 1:
+                                continue  # one generator cannot feed two responses; only the first is judged
+                            probs = protocol_problems(iface, res, res.exc is None)
+                            if res.exc is not None and rname != "stream":
+                                probs = [f"raised {res.exc!r:.100}"] + probs
+                            if probs:
+                                r.violation(f"pairs:{iface0}:{probs[0].split(' ')[0]}", dict(w, how=how), f"{iface0} one {rname} response object answering {rq[i].method} {rq[i].headers} and {rq[j].method} {rq[j].headers} at once ({how}): request {k}: {probs[0]}")
+                    if iface == "wsgi":
+                        for order in SV.merge_orders(3, 3):
+                            random.seed(3)
+                            check(SV.run_wsgi_pair(mk(), [SV.to_environ(rq[i]), SV.to_environ(rq[j])], order), f"order {order}")
+                    else:
+                        def run(prefix):
+                            random.seed(3)
+                            sc = [SV.to_scope(q, extensions=ext) if ext else SV.to_scope(q) for q in (rq[i], rq[j])]
+                            return SV.run_asgi_pair(prefix, run.app, sc, [SV.to_messages(rq[i]), SV.to_messages(rq[j])])
+
+                        def run1(prefix):
+                            run.app = mk()
+                            return run(prefix)
+                        dfs(run1, lambda x: check(x.obs, f"schedule {x.choices}"), bound=2)
+        r.sample({"iface": iface0, "recipe": "two requests at once on one FileResponse object"})
+    finally:
+        shutil.rmtree(d, ignore_errors=True)
+
+
+def run_vanish(r, iface):
+    """The file disappears while its response is under way (after the k-th event the server sees): whatever was emitted stays a
+    legal prefix - in particular no second response start from the not-found application."""
+    m = mod_for(iface)
+    for kind in ("Files", "Pages", "Files+404", "Pages+404", "FileResponse"):
+        for rng in (None, "bytes=1-4", "bytes=0-1,5-6"):
+            for k in range(0, 6):
+                d = tempfile.mkdtemp(prefix="c05-", dir=os.environ.get("VERIF_SCRATCH", "/tmp"))
+                try:
+                    p = os.path.join(d, "x.html")
+                    with open(p, "wb") as f:
+                        f.write(bytes(range(48, 58)))
+                    kw = {"handle_404": m.PlainTextResponse("custom not found", 404)} if kind.endswith("+404") else {}
+                    app = m.FileResponse(p, chunk_size=3) if kind == "FileResponse" else getattr(m, kind.split("+")[0])(d, **kw)
+                    req = SV.AReq(path="/x.html" if kind.startswith("Files") else "/x", headers=[("Range", rng)] if rng else [])
+                    seen = [0]
+
+                    def on_event(before=False):
+                        if not before:
+                            seen[0] += 1
+                        if seen[0] == k and os.path.exists(p):
+                            os.unlink(p)
+                    if iface == "wsgi":
+                        res = run_wsgi_watched(app, SV.to_environ(req), on_event, k)
+                    else:
+                        res = run_asgi_watched(app, SV.to_scope(req), SV.to_messages(req), on_event, k)
+                    r.count("evaluations")
+                    r.count("traces")
+                    r.count("distinct_nontrivial")
+                    probs = protocol_problems(iface, res, res.exc is None)
+                    w = {"iface": iface, "recipe": f"vanish {kind}", "fault": f"file removed after event {k}", "range": rng, "k": k}
+                    if probs:
+                        r.violation(f"vanish:{iface}:{probs[0].split(' ')[0]}", w, f"{iface} {kind}, Range={rng!r}, file removed after event {k}: {probs[0]}")
+                    elif res.exc is not None and not isinstance(res.exc, (OSError,)) and type(res.exc).__name__ != "HTTPException":
+                        r.violation(f"vanish:{iface}:exception", w, f"{iface} {kind}, Range={rng!r}, file removed after event {k}: raised {res.exc!r:.120}")
+                finally:
+                    shutil.rmtree(d, ignore_errors=True)
+    r.sample({"iface": iface, "recipe": "file removed after the k-th event", "k": "0..5"})
+
+
+def run_wsgi_watched(app, environ, on_event, k):
+    res = SV.WsgiResult()
+
+    def start_response(status, headers, exc_info=None):
+        res.start_calls.append((status, list(headers), len(res.items), exc_info is not None))
+        on_event()
+    if k == 0:
+        on_event(before=True)
+    it = None
+    try:
+        it = iter(app(environ, start_response))
+        for item in it:
+            res.items.append(item)
+            on_event()
+    except BaseException as e:  # noqa
+        res.exc = e
+    finally:
+        if it is not None and hasattr(it, "close"):
+            try:
+                it.close()
+            except BaseException as e:  # noqa
+                res.exc = res.exc or e
+    return res
+
+
+def run_asgi_watched(app, scope, messages, on_event, k):
+    from ..core.vloop import run_coro
+    res = SV.AsgiResult()
+    msgs = list(messages)
+
+    async def receive():
+        return msgs.pop(0) if msgs else {"type": "http.disconnect"}
+
+    async def send(message):
+        res.raw_events.append(message)
+        res.events.append(dict(message))
+        on_event()
+    if k == 0:
+        on_event(before=True)
+    try:
+        run_coro(app(scope, receive, send))
+    except BaseException as e:  # noqa
+        res.exc = e
+    return res
+
+
 def shards(tier, seed):
     out = [("small", iface, k, 8) for iface in ("wsgi", "asgi") for k in range(8)]
     out += [("streams", iface) for iface in ("wsgi", "asgi")]
@@ -264,6 +399,8 @@ def shards(tier, seed):
     out.append(("hostile_headers",))
     out.append(("wsgi_pings",))
     out += [("histories", k) for k in range(len(history_acts()))]
+    out += [("pairs", iface) for iface in ("wsgi", "asgi", "zerocopy")]
+    out += [("vanish", iface) for iface in ("wsgi", "asgi")]
     return out
 
 
@@ -353,6 +490,10 @@ def run_shard(desc, tier):
             shutil.rmtree(d, ignore_errors=True)
     elif desc[0] == "hostile_headers":
         hostile_headers(r)
+    elif desc[0] == "pairs":
+        run_pairs(r, desc[1])
+    elif desc[0] == "vanish":
+        run_vanish(r, desc[1])
     elif desc[0] == "histories":
         # what was answered before must not change what is answered now (message constants, class-level state)
         m = mod_for("asgi")
@@ -407,6 +548,14 @@ def replay(w):
     iface = w["iface"]
     name = w["recipe"]
     fams = []
+    if name.startswith("pair "):
+        run_pairs(r, iface)
+        hits = {k: v for k, v in r.viol.items() if v[1].get("recipe") == name}
+        return bool(hits), {"violations": sorted(hits), "texts": [v[2][:300] for v in hits.values()]}
+    if name.startswith("vanish"):
+        run_vanish(r, iface)
+        hits = {k: v for k, v in r.viol.items() if v[1].get("recipe") == name}
+        return bool(hits), {"violations": sorted(hits), "texts": [v[2][:300] for v in hits.values()]}
     if name.startswith("history"):
         m = mod_for("asgi")
         hist = [tuple(a) for a in w["history"]]
